@@ -804,8 +804,9 @@ int main(int argc, char **argv)
     LV.push_back({"Eq(y, 2)", Eq(y, integer(2))});
     LV.push_back({"interval[](0, 1)", interval(integer(0), integer(1), false, false)});
     LV.push_back({"finiteset1(y)", finiteset({y})});
+    LV.push_back({"contains(x, interval[](0, 1))", contains(x, interval(integer(0), integer(1), false, false))});
     std::set<std::string> small = {"x", "y", "1", "2", "1/2", "1.5", "I", "True", "False", "EmptySet", "Reals", "Integers", "dummy()",
-                                   "Lt(x, y)", "Eq(y, 2)", "interval[](0, 1)", "finiteset1(y)"};
+                                   "Lt(x, y)", "Eq(y, 2)", "interval[](0, 1)", "finiteset1(y)", "contains(x, interval[](0, 1))"};
     double tc0 = now();
     for (size_t ia = 0; ia < LV.size(); ia++)
         for (size_t ci = 0; ci < CT.size(); ci++) {
